@@ -756,3 +756,92 @@ func (s *stdSvc) runResponse(rc respCase) (*respResult, error) {
 	}
 	return res, nil
 }
+
+// ---- saved inputs on the lab engine ---------------------------------------------
+//
+// A saved relay case is wire text with placeholders for the addresses of the
+// running instance: {UA} the sending user agent's address, {L} the receiving
+// listener's address:port, {LHOST} / {LPORT} its parts, {HOP} a primed next
+// hop (address:5070, learned through listen entry 0), {HOPX} a never-learned
+// one. Fields: wire, entry, tcp, ua. It is sent through the standard service
+// and judged on the wire level against the independent reader's view of the
+// input.
+
+func (s *stdSvc) regressExpand(text string, g stdIngress) string {
+	L := s.transportOf(g)
+	r := strings.NewReplacer("{UA}", s.ip(10+g.UA), "{L}", fmt.Sprintf("%s:%d", L.Addr, L.Port), "{LHOST}", L.Addr, "{LPORT}", strconv.Itoa(L.Port),
+		"{HOP}", s.ip(20)+":5070", "{HOPX}", s.ip(25)+":5070", "{ID}", s.nextID("rg"))
+	return r.Replace(text)
+}
+
+// regressRelay sends the saved message and returns the independent reader's
+// view of input and receptions.
+func (s *stdSvc) regressRelay(c regressCase) (in *RMsg, got []labRx, fail string) {
+	g := stdIngress{Entry: c.I("entry"), TCP: c.Bool("tcp"), UA: c.I("ua")}
+	if err := s.primeHops(); err != nil {
+		return nil, nil, "skip: priming failed: " + err.Error()
+	}
+	wire := []byte(s.regressExpand(c.S("wire"), g))
+	in, err := sipRead(wire)
+	if err != nil {
+		return nil, nil, "skip: saved input is not a well-formed message for the independent reader: " + err.Error()
+	}
+	send, srcIP, _, err := s.sender(g)
+	if err != nil {
+		return nil, nil, "skip: " + err.Error()
+	}
+	s.model.learnRequest(s.transportOf(g), srcIP, &AMsg{IsReq: true, Hdrs: []AHdr{{Kind: hVia, Vias: []AVia{{Host: srcIP}}}}})
+	s.in.expect(wire)
+	if err := send(wire); err != nil {
+		return nil, nil, "skip: " + err.Error()
+	}
+	min := 1
+	if c.Bool("expect_drop") {
+		min = 0
+	}
+	rs, err := s.in.settle(send, min)
+	if err != nil {
+		return in, nil, err.Error()
+	}
+	got = labMessages(rs)
+	if c.Bool("expect_drop") {
+		if len(got) != 0 {
+			return in, got, fmt.Sprintf("must be sent nowhere, but was relayed:\n%s", labDescribe(got))
+		}
+		return in, got, ""
+	}
+	if len(got) != 1 {
+		return in, got, fmt.Sprintf("must be relayed exactly once; receptions:\n%s", labDescribe(got))
+	}
+	return in, got, ""
+}
+
+// checkContentR: C01's oracle between two reader views.
+func checkContentR(in, out *RMsg) string {
+	if out.Start != in.Start {
+		return fmt.Sprintf("start line changed:\n in: %q\nout: %q", in.Start, out.Start)
+	}
+	a, b := in.Others(), out.Others()
+	for i := 0; i < len(a) || i < len(b); i++ {
+		if i >= len(a) {
+			return fmt.Sprintf("header added: %q: %s", b[i][0], jsonBytes([]byte(b[i][1])))
+		}
+		if i >= len(b) {
+			return fmt.Sprintf("header dropped: %q: %s", a[i][0], jsonBytes([]byte(a[i][1])))
+		}
+		if a[i] != b[i] {
+			return fmt.Sprintf("header %d changed:\n in: %q: %s\nout: %q: %s", i, a[i][0], jsonBytes([]byte(a[i][1])), b[i][0], jsonBytes([]byte(b[i][1])))
+		}
+	}
+	cls := out.Values(hCL)
+	if len(cls) != 1 {
+		return fmt.Sprintf("relayed message carries %d Content-Length fields %q, want exactly one", len(cls), cls)
+	}
+	if cls[0] != strconv.Itoa(len(out.Body)) {
+		return fmt.Sprintf("Content-Length is %q but %d body bytes were sent", cls[0], len(out.Body))
+	}
+	if !bytes.Equal(out.Body, in.Body) {
+		return fmt.Sprintf("body changed: %d bytes in, %d bytes out", len(in.Body), len(out.Body))
+	}
+	return ""
+}
